@@ -59,8 +59,12 @@ impl World {
                     let p = self.root_ptr(h);
                     if let AnyCc::N(c) = unsafe { &*p } {
                         let node: &Node = c;
-                        let guard = node.store.borrow_mut();
+                        let shared = a[1] != 0;
+                        let guard_mut = if shared { None } else { Some(node.store.borrow_mut()) };
+                        let guard_sh = if shared { Some(node.store.borrow()) } else { None };
+                        let guard = (guard_mut, guard_sh);
                         self.m.borrow_mut().store_borrowed = Some(o);
+                        self.m.borrow_mut().store_borrow_shared = shared;
                         self.stats.borrow_mut().bump("creation_while_refcell_borrowed");
                         struct Unborrow<'a>(&'a World);
                         impl<'a> Drop for Unborrow<'a> {
@@ -329,6 +333,7 @@ impl World {
             m.unwound_this_op = false;
             m.collection_this_op = false;
             m.batch_open = false;
+            m.touched_this_call.clear();
         }
         self.stats.borrow_mut().ops += 1;
         self.stats.borrow_mut().steps += 1;
@@ -385,6 +390,7 @@ impl World {
             if self.dead.get() {
                 return;
             }
+            self.m.borrow_mut().touched_this_call.clear();
             let r = catch_unwind(AssertUnwindSafe(f));
             let unwound = r.is_err();
             if let Err(p) = r {
